@@ -1,7 +1,7 @@
 (* C13 -- connection IDs are issued, routed and retired consistently.
    Property theorems only; each is closed by [exact] of a lemma proved in proofs/. *)
 From SQ Require Import lib.Base gen.Gen_C13.
-From SQ Require model.LocalIds proofs.LocalIdsProofs proofs.LocalIdsRouting proofs.LocalIdsLifetime.
+From SQ Require model.LocalIds proofs.LocalIdsProofs proofs.LocalIdsRouting proofs.LocalIdsLifetime proofs.LocalIdsCaseOk proofs.LocalIdsSeq0.
 From SQ Require model.PeerIds proofs.PeerIdsProofs proofs.PeerIdsJudge proofs.PeerIdsLimit.
 From Coq Require Import Sorting.Sorted.
 Import LocalIds.
@@ -90,6 +90,30 @@ Theorem C13_new_registry_has_lifetime : forall L nw id tok v rotate,
   life v = L -> LocalIdsLifetime.LInv L nw (new_reg id tok (expiry v nw) rotate).
 Proof. exact LocalIdsLifetime.new_reg_linv. Qed.
 
+(* the executable premise of the random generator -- every handshake id and every register op of the case carries
+   one lifetime -- gives retire_prior_to <= sequence_number for every frame of every prefix of the case's own run;
+   the premise holds of a concrete run accepted by the judgement and fails for the recorded finding *)
+Theorem C13_lcid_case_ok_rpt_le_seq : forall case, LocalIdsCaseOk.lcid_case_ok case = true ->
+  forall n c r constraint cap pn f,
+    creg (nth c (conns (LocalIdsProofs.state_after (fst (init case)) (firstn n (LocalIdsCaseOk.case_ops case)))) dummy_conn) = Some r ->
+    In f (snd (on_transmit r constraint cap pn)) ->
+    let '(sq, p, _, _) := f in p <= sq.
+Proof. exact LocalIdsCaseOk.case_ok_rpt_le_seq. Qed.
+
+Theorem C13_lcid_case_ok_examples :
+  LocalIdsCaseOk.lcid_case_ok LocalIdsCaseOk.constant_case = true /\
+  judge LocalIdsCaseOk.constant_case (run LocalIdsCaseOk.constant_case) = true /\
+  LocalIdsCaseOk.lcid_case_ok LocalIdsProofs.refuting_case = false.
+Proof. exact LocalIdsCaseOk.case_ok_examples. Qed.
+
+(* the handshake id is never (re)issued: every NEW_CONNECTION_ID frame of every reachable state (all cases, all
+   operation sequences) carries a sequence number >= 1 *)
+Theorem C13_frames_seq_ge_1 : forall case ops c r constraint cap pn f,
+  creg (nth c (conns (LocalIdsProofs.state_after (fst (init case)) ops)) dummy_conn) = Some r ->
+  In f (snd (on_transmit r constraint cap pn)) ->
+  let '(sq, _, _, _) := f in 1 <= sq.
+Proof. exact LocalIdsSeq0.frames_seq_ge_1. Qed.
+
 (* ---- peer side (PeerIdRegistry) ---- *)
 
 (* every RETIRE_CONNECTION_ID written in any reachable state (all cases, all operation sequences: NEW_CONNECTION_ID
@@ -170,3 +194,6 @@ Print Assumptions C13_new_registry_has_lifetime.
 Print Assumptions C13_new_connection_id_exact.
 Print Assumptions C13_connection_id_limit_error_iff.
 Print Assumptions C13_pcid_judge_model.
+Print Assumptions C13_lcid_case_ok_rpt_le_seq.
+Print Assumptions C13_lcid_case_ok_examples.
+Print Assumptions C13_frames_seq_ge_1.
